@@ -22,7 +22,7 @@ fn dhw(ep: &cteepbd::types::EnergyPerformance) -> Result<f32, String> {
     cte::fraccion_renovable_acs_nrb(ep).map_err(|e| subj::err_kind(&e).to_string())
 }
 
-const SCALES_EXACT: [f64; 4] = [0.25, 8.0, 1024.0, 1048576.0];
+const SCALES_EXACT: [f64; 6] = [0.25, 0.125, 0.03125, 8.0, 1024.0, 1048576.0];
 const SCALES_TOL: [f64; 3] = [0.1, 3.0, 10.0];
 
 fn min_nonzero(text: &str) -> f64 {
@@ -79,7 +79,10 @@ fn check_area(base_ratios: bool, base: &Flat, comps: &cteepbd::Components, fs: &
     let f2 = result_flat(&e2);
     out.compared += 1;
     let ratios = base_ratios && cmp::ratios_ok(&e2, mag);
-    let d = cmp::cmp_flat_m(base, &f2, subj::tol(mag) * 0.05, 4e-6, mag, mag, &|p| p == "arearef" || (p.starts_with("rer") && !ratios), &|p, x| if p.starts_with("balance_m2.") { x / c } else { x });
+    // the per-m2 figures carry the absolute rounding noise of the totals divided by the area: their absolute
+    // tolerance is divided by the area factor too (two passes: everything but balance_m2, then balance_m2)
+    let mut d = cmp::cmp_flat_m(base, &f2, subj::tol(mag) * 0.05, 4e-6, mag, mag, &|p| p == "arearef" || p.starts_with("balance_m2.") || (p.starts_with("rer") && !ratios), &|_, x| x);
+    d.extend(cmp::cmp_flat_m(base, &f2, subj::tol(mag) * 0.05 / c.min(1.0), 4e-6, mag, mag, &|p| !p.starts_with("balance_m2."), &|_, x| x / c));
     if !d.is_empty() {
         let (a, b) = show(&d);
         out.viol("area_only_rescales_per_m2", &[], &cfg, format!("area x{c}: {b}"), format!("expected: {a}"));
@@ -127,7 +130,7 @@ impl StateCheck for C11 {
                 out.regime(format!("scale:{c}"));
                 check_scaled(base_ratios, &base, &base_dhw, text, *c, fs, k, lm, mag, out);
             }
-            for c in [0.5, 4.0, 3.0] {
+            for c in [0.5, 4.0, 3.0, 0.125, 0.0078125, 1000.003] {
                 check_area(base_ratios, &base, &comps, fs, k, lm, mag, c, out);
             }
         }
@@ -198,7 +201,7 @@ pub fn run(ctx: &Ctx) -> i32 {
         &C11,
         Finish {
             level: "model_checking",
-            rule: "every FLOW(+DHW) state x 2 configs x scale factors {2^-2,2^3,2^10,2^20 | 0.1,3,10} applied to the file text (skipped when a value would fall below 0.01 kWh) x area factors {0.5,4,3}; value sets: integers and hundredths of kWh (near the code's absolute thresholds); non-trivial = state exports energy".into(),
+            rule: "every FLOW(+DHW) state x 2 configs x scale factors {2^-2,2^-3,2^-5,2^3,2^10,2^20 | 0.1,3,10} applied to the file text (skipped when a value would fall below 0.01 kWh) x area factors {0.5,4,3}; value sets: integers and hundredths of kWh (near the code's absolute thresholds); non-trivial = state exports energy".into(),
             assumptions: strs(&["tolerance 2e-5*magnitude*c (+2e-5 relative); ratios 1e-4", "bit-exact power-of-two clause on states with <= 2 lines under identical forced hash keys"]),
             required_regimes: strs(&["dhw_fraction_defined", "tiny_export", "scale:1024", "scale:0.1", "bit_exact_isolated"]),
             extra: serde_json::json!({}),
